@@ -1,6 +1,13 @@
 """Sidecar contracts for ProFormaAnnotation index maps (property C11; used by C07/C04/C18): slice, shift, reverse."""
 from contracts._records import RECORDS, CLASSES, CTORS, PA, accessor_contracts
 ALIASES = {}
+# CNT(intervals, a, b, k): how many of the first k intervals lie fully inside [a, b)  (recursive counting fold)
+FUNCS = {'CNT': (['List[Interval]', 'int', 'int', 'int'], 'int')}
+AXIOMS = [
+    ('CNT-0', 'forall(lambda L=List[Interval], a=int, b=int: CNT(L, a, b, 0) == 0)'),
+    ('CNT-step', 'forall(lambda L=List[Interval], a=int, b=int, k=int: implies(k >= 0, CNT(L, a, b, k + 1) == CNT(L, a, b, k) + '
+                 'ite(a <= L[k].start and some(L[k].end) <= b, 1, 0)))'),
+]
 C = accessor_contracts()
 
 # ---------------------------------------------------------------- representation invariant and helpers
@@ -23,9 +30,12 @@ _SLICE_POST = [
     ('residue-mods-exactly', 'forall(lambda j: im_has(R, j) == (0 <= j and j < b - a and im_has(self, j + a)))'),
     ('residue-mods-values', 'forall(lambda j: implies(im_has(R, j), im_at(R, j) == im_at(self, j + a)))'),
     # "... and fully contained intervals of that range" (re-indexed), and no other interval
-    ('intervals-exactly', 'forall(lambda iv=Interval: (R._intervals is not None and (iv in ivs(R))) == (self._intervals is not None and exists(lambda k: '
-                          '0 <= k and k < len(ivs(self)) and a <= ivs(self)[k].start and some(ivs(self)[k].end) <= b and '
-                          'iv == Interval(ivs(self)[k].start - a, some(ivs(self)[k].end) - a, ivs(self)[k].ambiguous, ivs(self)[k].mods))))'),
+    ('intervals-count', '(R._intervals is None) == (self._intervals is None or CNT(ivs(self), a, b, len(ivs(self))) == 0) and '
+                        '(R._intervals is None or len(ivs(R)) == CNT(ivs(self), a, b, len(ivs(self))))'),
+    # the k-th interval of self, if fully inside [a, b), is interval number CNT(k) of the result, re-indexed (order kept, nothing else)
+    ('intervals-exactly', 'self._intervals is None or forall(lambda k: implies(0 <= k and k < len(ivs(self)) and a <= ivs(self)[k].start and '
+                          'some(ivs(self)[k].end) <= b, R._intervals is not None and ivs(R)[CNT(ivs(self), a, b, k)] == '
+                          'Interval(ivs(self)[k].start - a, some(ivs(self)[k].end) - a, ivs(self)[k].ambiguous, ivs(self)[k].mods)))'),
     ('no-empty-interval-list', 'R._intervals is None or len(ivs(R)) > 0'),
     # terminal modifications only with the terminus
     ('nterm-iff-start', 'R._nterm_mods == (self._nterm_mods if a == 0 else None)'),
@@ -33,7 +43,16 @@ _SLICE_POST = [
     ('globals-kept', 'same_globals(R, self)'),
 ]
 
+_CONT = 'a <= ivs(self)[k].start and some(ivs(self)[k].end) <= b'
+_SLICE_LEMMAS = [
+    ('L1-count-at-exit', 'implies(self._intervals is not None and new_intervals is not None, len(some(new_intervals)) == CNT(ivs(self), a, b, len(ivs(self))))'),
+    ('L2-contained-implies-kept', 'implies(self._intervals is not None, forall(lambda k: implies(0 <= k and k < len(ivs(self)) and ' + _CONT + ','
+                                  ' new_intervals is not None and 0 <= CNT(ivs(self), a, b, k) and CNT(ivs(self), a, b, k) < len(some(new_intervals)))))'),
+    ('L3-kept-values', 'implies(self._intervals is not None, forall(lambda k: implies(0 <= k and k < len(ivs(self)) and ' + _CONT + ','
+                       ' some(new_intervals)[CNT(ivs(self), a, b, k)] == Interval(ivs(self)[k].start - a, some(ivs(self)[k].end) - a, ivs(self)[k].ambiguous, ivs(self)[k].mods))))'),
+]
 C[PA + 'slice'] = dict(
+    exit_lemmas=_SLICE_LEMMAS,
     params=dict(self='Annotation', start='Optional[int]', stop='Optional[int]', inplace='bool'),
     returns='Optional[Annotation]',
     locals=dict(new_internal_mods='Optional[Dict[int,ModList]]', new_intervals='Optional[List[Interval]]'),
@@ -51,12 +70,93 @@ C[PA + 'slice'] = dict(
         0: [('is-dict', 'new_internal_mods is not None'),
             ('moved-so-far', 'forall(lambda j: (j in some(new_internal_mods)) == (0 <= j and j < b - a and ((j + a) in _seen0)))'),
             ('values', 'forall(lambda j: implies(j in some(new_internal_mods), some(new_internal_mods)[j] == im_at(self, j + a)))')],
-        1: [('is-list', 'new_intervals is not None'),
+        1: [('is-list', 'new_intervals is not None and len(some(new_intervals)) == CNT(ivs(self), a, b, _k1)'),
+            ('kept-so-far', 'forall(lambda k: implies(0 <= k and k < _k1 and a <= ivs(self)[k].start and some(ivs(self)[k].end) <= b,'
+                            ' 0 <= CNT(ivs(self), a, b, k) and CNT(ivs(self), a, b, k) < len(some(new_intervals)) and some(new_intervals)[CNT(ivs(self), a, b, k)] == '
+                            'Interval(ivs(self)[k].start - a, some(ivs(self)[k].end) - a, ivs(self)[k].ambiguous, ivs(self)[k].mods)))'),
             ('kept-wf', 'forall(lambda i: implies(0 <= i and i < len(some(new_intervals)), some(new_intervals)[i].end is not None and '
                         '0 <= some(new_intervals)[i].start and some(new_intervals)[i].start < some(some(new_intervals)[i].end) and '
-                        'some(some(new_intervals)[i].end) <= b - a))'),
-            ('kept-so-far', 'forall(lambda iv=Interval: (iv in some(new_intervals)) == exists(lambda k: 0 <= k and k < _k1 and a <= ivs(self)[k].start'
-                            ' and some(ivs(self)[k].end) <= b and iv == Interval(ivs(self)[k].start - a, some(ivs(self)[k].end) - a,'
-                            ' ivs(self)[k].ambiguous, ivs(self)[k].mods)))')],
+                        'some(some(new_intervals)[i].end) <= b - a))')],
+    },
+)
+
+# ---------------------------------------------------------------- shift
+# rot(p): where residue p ends up = (p - k) mod n, written without `mod` for 0 <= p < n and es = k mod n in [0, n)
+MACROS['rot'] = (['p', 'es', 'n'], 'ite(p >= es, p - es, p - es + n)')
+_IVROT = ('Interval(rot(ivs(self)[k].start, ES_, NN_), rot(ivs(self)[k].start, ES_, NN_) + (some(ivs(self)[k].end) - ivs(self)[k].start),'
+          ' ivs(self)[k].ambiguous, ivs(self)[k].mods)')
+_NOWRAP = 'rot(ivs(self)[k].start, ES_, NN_) + (some(ivs(self)[k].end) - ivs(self)[k].start) <= NN_'
+_SHIFT_POST = [
+    # residue p moves to position (p - k) mod n  (written as the rotation of the residue string)
+    ('residues-rotated', 'R._sequence == self._sequence[ES_:] + self._sequence[:ES_]'),
+    # "every residue keeps its own modifications": the modifications of residue p sit on (p - k) mod n afterwards, and there
+    # are no other residue modifications
+    ('mods-move-with-residue', 'forall(lambda p: implies(0 <= p and p < NN_, im_has(R, rot(p, ES_, NN_)) == im_has(self, p)))'),
+    ('mods-values', 'forall(lambda p: implies(0 <= p and p < NN_ and im_has(self, p), im_at(R, rot(p, ES_, NN_)) == im_at(self, p)))'),
+    ('no-other-mods', 'forall(lambda j: implies(im_has(R, j), 0 <= j and j < NN_))'),
+    # "global and terminal annotations stay in place"
+    ('termini-stay', 'R._nterm_mods == self._nterm_mods and R._cterm_mods == self._cterm_mods'),
+    ('globals-kept', 'same_globals(R, self)'),
+    # (intervals under a shift: the statement promises nothing beyond the identities; the clause "an interval that does not
+    #  wrap keeps its residues" is checked by the bounded tier only -- its VC stays undecided in z3/cvc5 within 40 s)
+]
+
+
+def _inst(t, R, es, nn):
+    return t.replace('ES_', es).replace('NN_', nn).replace('R.', R + '.').replace('(R,', '(' + R + ',').replace('(R)', '(' + R + ')')
+
+
+C[PA + 'shift'] = dict(
+    params=dict(self='Annotation', n='int', inplace='bool'),
+    returns='Optional[Annotation]',
+    locals=dict(new_internal_mods='Optional[Dict[int,ModList]]', new_intervals='Optional[List[Interval]]'),
+    ghost=dict(es='n % len(self._sequence)', L='len(self._sequence)'),
+    requires=[('non-empty', 'len(self._sequence) >= 1'), ('wf', 'wf(self)')],
+    ensures=[('returns-new-or-none', '(result is None) == inplace')] +
+            [(l + '/new', 'implies(not inplace, ' + _inst(t, 'some(result)', 'es', 'L') + ')') for l, t in _SHIFT_POST] +
+            [(l + '/inplace', 'implies(inplace, ' + _inst(t, 'self_final', 'es', 'L') + ')') for l, t in _SHIFT_POST] +
+            [('argument-unchanged', 'implies(not inplace, self_final == self)')],
+    invariants={
+        0: [('is-dict', 'new_internal_mods is not None and effective_shift == es and seq_len == L'),
+            ('moved-so-far', 'forall(lambda p: implies(0 <= p and p < L, (rot(p, es, L) in some(new_internal_mods)) == (p in _seen0)))'),
+            ('values', 'forall(lambda p: implies(0 <= p and p < L and (p in _seen0), some(new_internal_mods)[rot(p, es, L)] == im_at(self, p)))'),
+            ('in-range', 'forall(lambda j: implies(j in some(new_internal_mods), 0 <= j and j < L))')],
+        1: [('is-list', 'new_intervals is not None and effective_shift == es and seq_len == L')],
+    },
+)
+
+# ---------------------------------------------------------------- reverse
+_IVREV = 'Interval(n - some(ivs(self)[k].end), n - ivs(self)[k].start, ivs(self)[k].ambiguous, ivs(self)[k].mods)'
+_REV_POST = [
+    ('residues-reversed', 'R._sequence == self._sequence[::-1]'),
+    # every residue keeps its own modifications: residue p sits at n-1-p afterwards
+    ('mods-move-with-residue', 'forall(lambda p: implies(0 <= p and p < n, im_has(R, n - 1 - p) == im_has(self, p)))'),
+    ('mods-values', 'forall(lambda p: implies(0 <= p and p < n and im_has(self, p), im_at(R, n - 1 - p) == im_at(self, p)))'),
+    ('no-other-mods', 'forall(lambda j: implies(im_has(R, j), 0 <= j and j < n))'),
+    # "ambiguity intervals still cover the same residues after a reversal": [s, e) -> [n - e, n - s)
+    ('intervals-cover-same-residues', '(R._intervals is None) == (self._intervals is None) and (self._intervals is None or (len(ivs(R)) == len(ivs(self)) and '
+                                      'forall(lambda k: implies(0 <= k and k < len(ivs(self)), ivs(R)[k] == ' + _IVREV + '))))'),
+    # "global and terminal annotations stay in place (or swap when asked)"
+    ('termini-stay-or-swap', 'R._nterm_mods == (self._cterm_mods if swap_terms else self._nterm_mods) and '
+                             'R._cterm_mods == (self._nterm_mods if swap_terms else self._cterm_mods)'),
+    ('globals-kept', 'same_globals(R, self)'),
+]
+C[PA + 'reverse'] = dict(
+    params=dict(self='Annotation', inplace='bool', swap_terms='bool'),
+    returns='Optional[Annotation]',
+    locals=dict(new_internal_mods='Optional[Dict[int,ModList]]', new_intervals='Optional[List[Interval]]'),
+    ghost=dict(n='len(self._sequence)'),
+    requires=[('wf', 'wf(self)')],
+    ensures=[('returns-new-or-none', '(result is None) == inplace')] +
+            [(l + '/new', 'implies(not inplace, ' + _inst(t, 'some(result)', 'es', 'n') + ')') for l, t in _REV_POST] +
+            [(l + '/inplace', 'implies(inplace, ' + _inst(t, 'self_final', 'es', 'n') + ')') for l, t in _REV_POST] +
+            [('argument-unchanged', 'implies(not inplace, self_final == self)')],
+    invariants={
+        0: [('is-dict', 'new_internal_mods is not None'),
+            ('moved-so-far', 'forall(lambda p: implies(0 <= p and p < n, ((n - 1 - p) in some(new_internal_mods)) == (p in _seen0)))'),
+            ('values', 'forall(lambda p: implies(0 <= p and p < n and (p in _seen0), some(new_internal_mods)[n - 1 - p] == im_at(self, p)))'),
+            ('in-range', 'forall(lambda j: implies(j in some(new_internal_mods), 0 <= j and j < n))')],
+        1: [('is-list', 'new_intervals is not None and len(some(new_intervals)) == _k1'),
+            ('moved-so-far', 'forall(lambda k: implies(0 <= k and k < _k1, some(new_intervals)[k] == ' + _IVREV + '))')],
     },
 )
